@@ -14,6 +14,8 @@ pub fn check(tier: Tier) -> Check {
         Part::new("C12/reconnect", json!({}), 0, tier.pick(45, 300)),
         // requests made before the connection that carries them exists
         Part::new("C12/early", json!({}), 0, 60),
+        // the largest packet there is (268 435 460 bytes) against limits around 2^28 (run one at a time)
+        Part::new("C12/giant", json!({"seq": true, "full": tier == Tier::Thorough}), 0, 300),
     ];
     Check {
         also_rel: false,
@@ -177,7 +179,69 @@ fn reconnect(name: String, params: Value) -> Scenario {
     })
 }
 
+/// The other end of the size range: the largest packet MQTT 5 can carry (Remaining Length 268 435 455,
+/// 268 435 460 bytes in all) against limits around it. A limit is a limit whatever its magnitude: M =
+/// 268 435 455 .. 268 435 459 still refuses this packet, M = 268 435 460 and "no M" let it through.
+fn giant(name: String, params: Value) -> Scenario {
+    Box::new(move |chz, ex| {
+        let ms: [Option<u32>; 7] = [
+            Some(268_435_454),
+            Some(268_435_455),
+            Some(268_435_457),
+            Some(268_435_459),
+            Some(268_435_460),
+            Some(u32::MAX),
+            None,
+        ];
+        // (quick: the two ends of the critical range and one limit that lets the packet through)
+        let pick: Vec<usize> = if params["full"].as_bool().unwrap_or(false) { (0..ms.len()).collect() } else { vec![1, 3, 4] };
+        let mi = pick[chz.choose(pick.len())];
+        let m = ms[mi];
+        // (the cases in which 256 MiB really travel are run with QoS 0 only)
+        let q = if mi >= 4 { 0 } else { chz.choose(2) as u8 };
+        let mut sys = Sys::new("C12", &name, chz);
+        sys.params = params.clone();
+        sys.m.check_client_acks = false;
+        let mut props = vec![Prop::u16(P_RECEIVE_MAXIMUM, 1)];
+        if let Some(m) = m {
+            props.push(Prop::u32(P_MAXIMUM_PACKET_SIZE, m));
+        }
+        sys.bring_up(props);
+        // remaining length = 2 + 1 (topic) [+ 2 (packet id)] + 1 (property length) + payload
+        let plen = 268_435_455usize - 4 - if q > 0 { 2 } else { 0 };
+        let spec = OpSpec::Publish(PublishSpec::simple(q, "t", &vec![0x47u8; plen]));
+        let l = {
+            let i = sys.m.start(spec.clone());
+            let l = sys.m.request_len(i, false);
+            // (only used to measure; the real operation is started below)
+            sys.m.ops.pop();
+            sys.m.wake.remove(&i);
+            sys.m.live_handles -= 1;
+            l
+        };
+        assert_eq!(l, 268_435_460, "harness: the giant packet has the wrong size");
+        sys.events.push(format!("L={} M={:?}", l, m));
+        sys.apply(Ev::Start(spec));
+        // the quota slot is untouched by a refusal: a small QoS 1 publish goes out (Receive Maximum 1)
+        if q == 0 || m.map(|m| (m as usize) < l).unwrap_or(false) {
+            sys.apply(Ev::Start(OpSpec::Publish(PublishSpec::simple(1, "f", b""))));
+            let fo = sys.m.ops.len() - 1;
+            if !sys.dead {
+                if let Some(p) = sys.ack_for(fo, 0, "") {
+                    sys.apply(Ev::Deliver(p));
+                }
+            }
+        }
+        sys.finish();
+        sys.events.truncate(8);
+        sys.report(ex, &["max-packet-size-refusal", "qos0-written"]);
+    })
+}
+
 pub fn scenario(name: &str, params: &Value) -> Scenario {
+    if name == "C12/giant" {
+        return giant(name.to_string(), params.clone());
+    }
     if name == "C12/early" {
         return early(name.to_string(), params.clone());
     }
